@@ -9,7 +9,8 @@ import cmdfam
 import polfam
 import vlib
 
-FAULTS = ["none", "noargs", "nofile", "unreadable", "badyaml", "wrongtype", "unknownaction", "unknownsyscall", "nosyscalls", "kernelrefuses", "seccompdenied", "notarget"]
+FAULTS = ["none", "noargs", "nofile", "unreadable", "badyaml", "wrongtype", "unknownaction", "unknownsyscall", "foreignsyscall", "nosyscalls", "kernelrefuses", "seccompdenied", "notarget"]
+FOREIGN = ["_llseek", "socketcall", "mmap2", "fstat64"]
 # the same fault classes in other places of the file (Sandbox.tla does not distinguish them: they are realisations of "unknownsyscall")
 UNKNOWN_VARIANTS = {
     "in a group whose action is the default action": "seccomp:\n  default_action: allow\n  syscalls:\n  - action: allow\n    names:\n    - tuxcall\n    - verif_no_such_syscall\n  - action: errno\n    names:\n    - security\n",
@@ -57,6 +58,8 @@ def policy_for(fault):
         "wrongtype": "seccomp:\n  default_action: allow\n  syscalls: notalist\n",
         "unknownaction": GOOD.replace("default_action: allow", "default_action: permit"),
         "unknownsyscall": GOOD.replace("    - security\n", "    - verif_no_such_syscall\n"),
+        # unknown to the table the filter is built for, known to another one (i386 / arm names on x86_64): as unknown as a misspelt one
+        "foreignsyscall": GOOD.replace("    - security\n", "    - %s\n" % FOREIGN[0]),
         "nosyscalls": "seccomp:\n  default_action: allow\n  syscalls: []\n",
         "kernelrefuses": "seccomp:\n  default_action: allow\n  syscalls:\n  - action: errno\n    names_with_args:\n" + big,
     }.get(fault, GOOD)
